@@ -131,6 +131,10 @@ func runUnit(w *World, pk *Pkg, c *Contract) (res *UnitResult) {
 		res.GenMs = time.Since(t0).Milliseconds()
 	}()
 	decl := c.Decl
+	if c.Frame != "" {
+		e.runFrame(pk, c)
+		return res
+	}
 	if c.MapLoop {
 		for i, l := range pk.Loops[decl] {
 			e.loopOrd[l] = i
@@ -462,7 +466,16 @@ func solveUnits(rs []*UnitResult, opts solveOpts) {
 	// is asked again once everything else is done: four times the budget, all solvers at once and z3 under two more
 	// random seeds. Only a definite "unsat" discharges; a definite "sat" is kept as the counterexample.
 	var again []job
+	skip := readUnproved() // listed tool limits are not claimed: no second chance
+	for _, f := range readFindings() {
+		if f.Kind == "finding" {
+			skip[f.Obligation] = "known finding"
+		}
+	}
 	for _, j := range jobs {
+		if _, listed := skip[j.o.Name]; listed {
+			continue
+		}
 		if !j.o.Canary && j.o.Kind != "ovf" && j.o.Status != "unsat" && j.o.Status != "sat" {
 			again = append(again, j)
 		}
